@@ -63,7 +63,7 @@ def run(ctx: Ctx) -> None:
     for rel, q in ((SAD, "SadSsd.pixel_wise_aggregation"), (COM, "sliding_window"), (IMG, "census_transform"), (MC, "AbstractMatchingCost.masks_dilatation")):
         check_as_strided(ctx, "C13.RELATIVE(as_strided)", rel, q)
     n = borrow(ctx, lambda c: (rule_kernel(c, MED, "MedianFilter.median_filter", "self._filter_size", "radius"), rule_kernel(c, BIL, "BilateralFilter.filter_bilateral", "win_width", "offset")), {"C10.KERNEL": "C13.RELATIVE(kernel)"})
-    ctx.floor("C13.RELATIVE(kernel)", n, 10)
+    ctx.floor("C13.RELATIVE(kernel)", n, 4)
     check_block_nest(ctx, "C13.RELATIVE(blocks)", MED, "MedianFilter.median_filter", start="radius", reduce_hint="np.nanmedian(disp_x, axis=(2, 3))")
     check_block_nest(ctx, "C13.RELATIVE(blocks)", BIL, "BilateralFilter.filter_bilateral", start="offset")
     for q in ("WinnerTakesAll.argmin_split", "WinnerTakesAll.argmax_split"):
